@@ -31,3 +31,10 @@ package remoting
 //@   requires c.conn != nil && !typeis(c.conn, "*bufio.Reader") && ctx != nil && c.envelopHandler != nil && !held(c.writeCloseLock) && messages.regwf()
 //@   modifies anyold, gmap(consumed), gmap(published), gmap(rearmed), gmap(remotehandled)
 //@   ensures  gcount(remotehandled, 0) <= old(gcount(remotehandled, 0)) + 1
+// the reader re-arms itself AT MOST once per call (two armed readers on one connection would interleave their
+// reads and tear frames apart - C14: never a corrupted message), and never after a fatal error
+//@   ensures  forall t mathint :: gcount(rearmed, t) <= old(gcount(rearmed, t)) + 1 && gcount(rearmed, t) >= old(gcount(rearmed, t))
+//@   ensures  fatal ==> forall t mathint :: gcount(rearmed, t) == old(gcount(rearmed, t))
+// an undecodable or unhandled frame does not stop the reader: whenever a complete frame was taken from the
+// connection and the call is not fatal, the reader is armed again
+//@   ensures  !fatal && gcount(consumed, c.conn) >= old(gcount(consumed, c.conn)) + 5 ==> exists t mathint :: gcount(rearmed, t) == old(gcount(rearmed, t)) + 1
